@@ -6,6 +6,8 @@ use super::*;
 use crate::engine::{Acc, Ix, ReplayOut};
 use crate::refmodel::*;
 use crate::subject::{self, EncOut, LenOut, Owned};
+#[allow(unused_imports)]
+use crate::refmodel::{ref_decode, Class};
 use crate::types::*;
 use libmctp::smbus::MCTPSMBusContext;
 use serde_json::{json, Value};
@@ -212,11 +214,35 @@ pub fn judge_enc(
                 _ => {}
             }
         }
+        "C01" => {
+            // round trip of whatever was encoded (used by ENCSEQ): decode on a fresh context of
+            // another address and compare with the reference decoder's verdict on those bytes
+            let r = run_enc(ctx, call, dst, 1024, 2);
+            if want_obs {
+                j.observed = obs_of(&r);
+            }
+            if let (EncOut::Ok(n), EncExp::Bytes(_)) = (&r.out, &exp) {
+                j.produced = true;
+                let bytes = &r.buf[..(*n).min(r.buf.len())];
+                let rd = ref_decode(bytes);
+                let recv_o = Owned::new(&Cfg::bare(0x6E));
+                let recv = recv_o.ctx();
+                let got = subject::decode(&recv, bytes);
+                let is_known = matches!(rd.class, Class::KnownPanic(_)) || matches!(call, EncCall::RespGetEid { cc: 0, .. });
+                if !is_known && rd.class != Class::Unclaimed {
+                    if let Some(t) = crate::explore::compare_decode(&rd, &got) {
+                        j.viols.push(("round-trip", format!("{} ({} bytes: {}) handed back to the decoder: {}", call.name(), n, hex(bytes), t)));
+                    }
+                }
+            }
+        }
         "C16" => {
             // three buffers: exact length / some spare / 1024 bytes, three different poisons
             let spare = [1usize, 2, 3, 8, 64][(variant % 5) as usize];
             let base = if exp_len > 0 { exp_len } else { 400 };
-            let runs = [run_enc(ctx, call, dst, base, 0), run_enc(ctx, call, dst, base + spare, 1), run_enc(ctx, call, dst, 1024, 2)];
+            // (when a previous packet is to be left in the buffer, the first run stays pure poison so
+            // that the other two are compared with an output that cannot contain stale bytes)
+            let runs = [run_enc_opt(ctx, call, dst, base, 0, false), run_enc(ctx, call, dst, base + spare, 1), run_enc(ctx, call, dst, 1024, 2)];
             if want_obs {
                 j.observed = runs.iter().map(obs_of).collect::<Vec<_>>().join(" | ");
             }
@@ -844,6 +870,66 @@ pub fn run_c16(run: &mut Run) {
     // refusal axis: reserved EIDs x 4 operations x all 128x128 addresses
     sweep_enc(run, "C16", "set_endpoint_id EID in {0x00,0xFF,0x01,0xFE} x 4 ops x 128x128", 16, &|i| EncCall::ReqSetEid { op: (i / 4) as u8, eid: [0x00, 0xFF, 0x01, 0xFE][(i % 4) as usize] }, &Addrs::All7, 1);
     sweep_encseq(run, "C16");
+    c16_reuse_pairs(run);
+}
+
+/// Every ordered pair (previous, current) over complete small argument spaces,
+/// the current call writing into the buffer that still holds the previous
+/// call's packet (same destination, often the same length): the output must
+/// not depend on those previous contents.
+fn c16_reuse_pairs(run: &mut Run) {
+    let spaces: Vec<(&str, u64, Box<dyn Fn(u64) -> EncCall + Sync>)> = vec![
+        ("set_endpoint_id op x eid", 1024, Box::new(|i| EncCall::ReqSetEid { op: (i / 256) as u8, eid: i as u8 })),
+        ("query_hop eid x type", 1536, Box::new(|i| EncCall::ReqQueryHop { eid: i as u8, ty: (i / 256) as u8 })),
+        ("allocate_endpoint_ids op x (size lane | first lane)", 1536, Box::new(|i| {
+            let op = (i / 512) as u8;
+            let v = i as u8;
+            if (i / 256) % 2 == 0 { EncCall::ReqAllocate { op, size: v, first: 0x20 } } else { EncCall::ReqAllocate { op, size: 0x08, first: v } }
+        })),
+        ("resp.set_endpoint_id / get_endpoint_id enum combinations", 52, Box::new(|i| {
+            if i < 36 {
+                let mut ix = Ix(i);
+                EncCall::RespSetEid { cc: ix.take(6) as u8, assign: ix.take(2) as u8, alloc: ix.take(3) as u8 }
+            } else {
+                let mut ix = Ix(i - 36);
+                EncCall::RespGetEid { cc: 0, ty: ix.take(2) as u8, idty: ix.take(4) as u8, fair: ix.take(2) == 1 }
+            }
+        })),
+    ];
+    let cfg = Cfg::simple(0x23);
+    for (name, n, f) in &spaces {
+        let n = *n;
+        run.sweep_chunked(&format!("buffer reuse: every ordered pair (previous, current) over [{}] ({} x {})", name, n, n), n * n, |acc, lo, hi| {
+            let owned = Owned::new(&cfg);
+            let po = Owned::new(&cfg);
+            for i in lo..hi {
+                let prev = f(i / n);
+                let cur = f(i % n);
+                let ctx = owned.ctx();
+                let probe = po.ctx();
+                let r = run_enc(&ctx, &prev, 0x34, 1024, 2);
+                acc.evals += 1;
+                let EncOut::Ok(pn) = r.out else { continue };
+                set_prefill(Some(r.buf[..pn.min(r.buf.len())].to_vec()));
+                let j = judge_enc("C16", &ctx, &probe, cfg.addr, 0, &cur, 0x34, 0, false);
+                set_prefill(None);
+                acc.trans += 4;
+                acc.validated += 1;
+                if i % 11 == 0 {
+                    acc.state(Fnv::default().u64(fp(&prev)).u64(fp(&cur)).finish());
+                }
+                if j.produced {
+                    acc.nontrivial(Fnv::default().u64(0x16A).u64(fp(&prev)).u64(fp(&cur)).finish());
+                }
+                for (kind, d) in j.viols {
+                    let history = vec![Event::Encode { call: prev.clone(), dst: 0x34 }];
+                    acc.violation(2, kind, format!("into the buffer still holding the packet of {:?}: {}", prev, d), || {
+                        json!({"prop": "C16", "check": "encseq", "cfg": cfg, "history": history, "call": cur, "dst": 0x34, "reuse": true})
+                    });
+                }
+            }
+        });
+    }
 }
 
 pub fn replay_c03(c: &Value) -> Result<ReplayOut, String> {
